@@ -495,6 +495,11 @@ class TestSuiteWriter:
         ])
         if star_stmt is not None:
             sut_import_stmts.append(star_stmt)
+        if not needs_pytest and any(
+            "pytest." in cst.Module(body=[function]).code for function in functions
+        ):
+            # For example, float assertions are rendered with pytest.approx.
+            needs_pytest = True
         if seed is not None:
             needs_pytest = True
             seed_preamble: list[cst.SimpleStatementLine | cst.BaseCompoundStatement] = [
